@@ -35,7 +35,7 @@ def plan(tier):
 def required(tier):
     cells = [f"cell:{a}{b}:{r}" for a in "><" for b in "><" for r in ("accepted", "rejected")]
     return ["post:path_exists", "post:extract_path", "cli_single", "cli_file", "cli_fasta",
-            "cli_gz", "reversal_pairs", "selflink_walk", "mixed_case_graphs"] + cells
+            "cli_gz", "reversal_pairs", "selflink_walk", "mixed_case_graphs", "cli_stdout"] + cells
 
 
 # -- contracts --------------------------------------------------------------------------------
@@ -198,7 +198,14 @@ def run_case(ctx, rng, index, casedir):
     out1 = os.path.join(casedir, "single.txt")
     fasta = rng.random() < 0.5
     i = rng.randrange(len(plist))
-    o = run_cli(["find_path", gpath, plist[i], "-o", out1] + (["--fasta"] if fasta else []))
+    if rng.random() < 0.3:  # default output: stdout
+        o = run_cli(["find_path", gpath, plist[i]] + (["--fasta"] if fasta else []))
+        if o.ok:
+            with open(out1, "w") as f:
+                f.write(o.stdout)
+        M.hit("cli_stdout")
+    else:
+        o = run_cli(["find_path", gpath, plist[i], "-o", out1] + (["--fasta"] if fasta else []))
     M.hit("cli_single")
     if gz:
         M.hit("cli_gz")
